@@ -6,11 +6,13 @@
   Everything here is about the MODEL (`Rbgp.Api.Model`) of
     daemon/src/convert.rs   attr_to_api / attr_from_api / read_extcom / write_extcom / nlri_to_api / net_from_api
     packet/src/bgp.rs       the attribute loop of parse_message + Attribute::decode, Attribute::encode,
-                            as_path_length, as_path_origin, as_path_prepend, the two-octet-AS helpers
+                            as_path_length, as_path_origin, as_path_prepend, the two-octet-AS helpers,
+                            the size check of PeerCodec::encode_to
     packet/src/{labeled,vpn,mpls,rd}.rs   NLRI codecs
     table/src/lib.rs        the attribute accessors of `impl Ord for RibEntry`
   with the C17 repairs of convert.rs in place (`Api.current`); `Api.original` is the code before them.
-  `WF` / `WFN` (Spec.lean) are the structural invariants the wire decoder enforces.
+  `WF` / `WFN` (Spec.lean) are the structural invariants the wire decoder enforces, including the size one
+  UPDATE can carry and "no address octet beyond the prefix".
 
   The proofs are in `Rbgp.Api.Proofs`.
 -/
@@ -21,13 +23,13 @@ open Rbgp.Api Rbgp.Api.Spec
 /-! ## 0. The reference checker accepts every run -/
 
 /-- For every case in the claimed domain (`caseOk`: canonical flags byte on the wire stream, in-range
-    protobuf fields on the API stream, no label-stack wrap on the NLRI wire stream) the checker written
-    from the property text accepts the run of the model of the current code. -/
+    protobuf fields on the API streams) the checker written from the property text — invariants, no consumer
+    panic, round trip, *and* "listed with the same content as added" — accepts the run of the model of the
+    current code. -/
 theorem check_run_ok (c : Case) (h : caseOk c) : Spec.check c (run current c) = .ok :=
   Rbgp.Api.check_run_ok c h
 
-/-- non-vacuity: a wire AS_PATH, an API AS_PATH, a VPNv4 prefix from the wire and a labeled prefix from the API
-    are inside the claimed domain and produce full observations -/
+/-- non-vacuity: cases of every stream are inside the claimed domain and produce full observations -/
 example : caseOk (.attrWire 2 0x40 [2, 2, 0, 0, 0xfd, 0xe9, 0, 1, 0, 0, 1, 1, 0, 0, 0, 7]) := by
   intro f hf; simp [canonicalFlags] at hf; omega
 example : caseOk (.attrApi (.asPath [(2, [65001, 4200000000]), (1, [7])])) := by
@@ -36,6 +38,8 @@ example : caseOk (.nlriApi (.labeled [100, 200] 24 (.ip4 167772160))) := by
   show ApiNlri.inRange _ = true; decide
 example : fromApi current (.asPath [(2, [65001, 4200000000]), (1, [7])]) =
     .ok ⟨2, 0x40, .bin [2, 2, 0, 0, 0xfd, 0xe9, 0xfa, 0x56, 0xea, 0, 1, 1, 0, 0, 0, 7]⟩ := by decide
+example : netFromApi current (.labeled [100, 200] 24 (.ip4 167772160)) = .ok (.lv4 [100, 200] 167772160 24) := by
+  decide
 
 /-! ## 1. Round trip: stored value -> API form -> identical stored value -/
 
@@ -44,35 +48,35 @@ example : fromApi current (.asPath [(2, [65001, 4200000000]), (1, [7])]) =
 theorem roundtrip_attr (a : Attribute) (hwf : WF a) (hm : modelledCode a.code = true)
     (hs : a.code ≠ 3 ∧ a.code ≠ 17 ∧ a.code ≠ 18) (hc : flagsCanon a) :
     ∃ x, toApi current a = .ok x ∧ fromApi current x = .ok a :=
-  Rbgp.Api.roundtrip_attr a hwf hm hs hc
+  rtreal_of_rt a hwf (Rbgp.Api.roundtrip_attr a hwf hm hs hc)
 
 /-- The same, stated on what the wire decoder produces: any attribute value of a modelled code sent with
     the canonical flags byte, if it is stored at all, is displayed and re-imported unchanged. -/
 theorem roundtrip_decoded (code flags : Nat) (bs : Bytes) (a : Attribute)
-    (hc : code < 256) (hf : flags < 256) (hb : ∀ b ∈ bs, b < 256) (hm : modelledCode code = true)
-    (hcanon : ∀ f, canonicalFlags code = some f → flags = f)
+    (hc : code < 256) (hf : flags < 256) (hb : ∀ b ∈ bs, b < 256) (hlen : bs.length ≤ 65508)
+    (hm : modelledCode code = true) (hcanon : ∀ f, canonicalFlags code = some f → flags = f)
     (h : decodeAttr code flags bs = .stored a) :
     ∃ x, toApi current a = .ok x ∧ fromApi current x = .ok a := by
-  obtain ⟨hwf, hcode, hflags, hs⟩ := decode_wf code flags bs a hc hf hb h
-  exact Rbgp.Api.roundtrip_attr a hwf (by rw [hcode]; exact hm) (by rw [hcode]; omega)
+  obtain ⟨hwf, hcode, hflags, hs⟩ := decode_wf code flags bs a hc hf hb hlen h
+  exact roundtrip_attr a hwf (by rw [hcode]; exact hm) (by rw [hcode]; omega)
     (fun f hf' => by rw [hcode] at hf'; rw [hflags]; exact hcanon f hf')
 
 /-- Unrecognised optional transitive attributes (kept as opaque values) round-trip with **any** flags byte:
     the raw API message carries the flags. -/
 theorem roundtrip_unrecognised (code flags : Nat) (bs : Bytes) (a : Attribute)
-    (hc : code < 256) (hf : flags < 256) (hb : ∀ b ∈ bs, b < 256) (hun : canonicalFlags code = none)
-    (h : decodeAttr code flags bs = .stored a) :
+    (hc : code < 256) (hf : flags < 256) (hb : ∀ b ∈ bs, b < 256) (hlen : bs.length ≤ 65508)
+    (hun : canonicalFlags code = none) (h : decodeAttr code flags bs = .stored a) :
     ∃ x, toApi current a = .ok x ∧ fromApi current x = .ok a := by
-  obtain ⟨hwf, hcode, hflags, hs⟩ := decode_wf code flags bs a hc hf hb h
+  obtain ⟨hwf, hcode, hflags, hs⟩ := decode_wf code flags bs a hc hf hb hlen h
   have hm : modelledCode code = true := by
     simp only [modelledCode, decide_eq_true_eq]
     refine ⟨?_, ?_, ?_⟩ <;> (intro h'; subst h'; simp [canonicalFlags] at hun)
-  exact Rbgp.Api.roundtrip_attr a hwf (by rw [hcode]; exact hm) (by rw [hcode]; omega)
+  exact roundtrip_attr a hwf (by rw [hcode]; exact hm) (by rw [hcode]; omega)
     (fun f hf' => by rw [hcode, hun] at hf'; simp at hf')
 
 /-- IPv4 / IPv6 / labeled / VPN prefixes: `net_from_api (nlri_to_api n) = n`. -/
 theorem roundtrip_nlri (n : Nlri) (h : WFN n) : netFromApi current (nlriToApi n) = .ok n :=
-  Rbgp.Api.roundtrip_nlri n h
+  roundtrip_nlri_real n h
 
 example : WF ⟨2, 0x40, .bin [2, 1, 0, 0, 0xfd, 0xe9, 1, 2, 0, 0, 0, 1, 0, 0, 0, 2]⟩ := by
   simp [WF, wfClause, classOf, flagsOk, binClause, Spec.isBytes, Spec.segments]
@@ -83,7 +87,7 @@ example : WFN (.vpn4 [100, 200] (.twoOctet 65001 7) 167772160 24) := by decide
 /-- full strength: *every* value the decoder stores (modelled code) round-trips -/
 def C17_roundtrip_full : Prop :=
   ∀ (code flags : Nat) (bs : Bytes) (a : Attribute), code < 256 → flags < 256 → (∀ b ∈ bs, b < 256) →
-    modelledCode code = true → decodeAttr code flags bs = .stored a →
+    bs.length ≤ 65508 → modelledCode code = true → decodeAttr code flags bs = .stored a →
     ∃ x, toApi current a = .ok x ∧ fromApi current x = .ok a
 
 /-- **open finding `roundtrip-flags-differ`**: ATOMIC_AGGREGATE received with the EXTENDED-LENGTH bit
@@ -92,29 +96,69 @@ def C17_roundtrip_full : Prop :=
     the same way: COMMUNITIES sent with 0xE0). -/
 theorem flags_not_carried : ¬ C17_roundtrip_full := by
   intro h
-  obtain ⟨x, hx1, hx2⟩ := h 6 0x50 [] ⟨6, 0x50, .bin []⟩ (by omega) (by omega) (by simp) (by decide)
-    (by simp [decodeAttr, canonicalFlags, classBits, decodeData])
+  obtain ⟨x, hx1, hx2⟩ := h 6 0x50 [] ⟨6, 0x50, .bin []⟩ (by omega) (by omega) (by simp) (by simp)
+    (by decide) (by simp [decodeAttr, canonicalFlags, classBits, decodeData])
   simp [toApi] at hx1
   subst hx1
-  simp [fromApi, newWithBin, canonicalFlags] at hx2
+  revert hx2
+  decide
 
-/-! ## 2. What the API accepts is well-formed; conversion never panics -/
+/-! ## 2. What the API accepts is well-formed and listed back as sent; conversion never panics -/
 
-/-- `attr_from_api x = Ok(a)`  ⇒  `a` satisfies every invariant the wire decoder enforces, with the canonical
-    flags of its code. -/
+/-- `attr_from_api x = Ok(a)`  ⇒  `a` satisfies every invariant the wire decoder enforces (including the
+    size one UPDATE can carry), with the canonical flags of its code. -/
 theorem from_api_wf (x : ApiAttr) (a : Attribute) (hr : x.inRange = true)
-    (h : fromApi current x = .ok a) : WF a ∧ flagsCanon a :=
-  Rbgp.Api.from_api_wf x a hr h
+    (h : fromApi current x = .ok a) : WF a ∧ flagsCanon a := by
+  obtain ⟨hst, h0, hsz⟩ := fromApi_ok x a h
+  exact Rbgp.Api.from_api_wf x a hr h0 hsz hst
 
 theorem from_api_wf_nlri (x : ApiNlri) (n : Nlri) (hr : x.inRange = true)
-    (h : netFromApi current x = .ok n) : WFN n :=
-  Rbgp.Api.nlri_from_api_wf x n hr h
+    (h : netFromApi current x = .ok n) : WFN n := by
+  obtain ⟨hst, h0⟩ := netFromApi_ok x n h
+  exact nlri_from_api_wf x n hr hst h0
 
-/-- ... and is then listed back with the same content. -/
-theorem accepted_listed_unchanged (x : ApiAttr) (a : Attribute) (hr : x.inRange = true)
+/-- **listed with the same content as added**: what `attr_to_api` shows for the accepted value is the
+    message that was sent, up to the two re-presentations of `Spec.sameListed` (a raw message may leave
+    `flags` unset; a raw extended community may be shown in its typed form).  Nothing is altered
+    silently: what cannot be stored exactly is an `Err`. -/
+theorem listed_same_as_added (x : ApiAttr) (a : Attribute) (y : ApiAttr) (hr : x.inRange = true)
+    (h : fromApi current x = .ok a) (hy : toApi current a = .ok y) : sameListed x y = true :=
+  listed_same x a y hr h hy
+
+theorem listed_same_as_added_nlri (x : ApiNlri) (n : Nlri) (hr : x.inRange = true)
+    (h : netFromApi current x = .ok n) : nlriToApi n = x := by
+  obtain ⟨hst, h0⟩ := netFromApi_ok x n h
+  exact nlri_listed_same x n hr hst h0
+
+/-- AddPath then ListPath (`GrpcService::local_path`, `insert_route`, `destination_to_api`): when the request
+    carries none of the attributes `local_path` consumes or drops (`kept`: no NEXT_HOP / raw MP_REACH,
+    ORIGINATOR_ID, CLUSTER_LIST, raw MP_UNREACH), ListPath shows every attribute that was sent, and beyond
+    them only the mandatory ORIGIN / AS_PATH defaults.  Without `kept` it does not: open findings
+    `listed-path-lacks-next-hop` / `-originator-id` / `-cluster-list`. -/
+theorem listed_path_same_as_added (sent : List ApiAttr) (stored : List Attribute)
+    (hr : ∀ x ∈ sent, x.inRange = true) (hk : ∀ x ∈ sent, kept x) (hl : localPath current sent = .ok stored)
+    (hm : ∀ a ∈ stored, modelledCode a.code = true) :
+    ∃ ys, listAttrs current stored = .ok ys ∧ checkPath sent ys = .ok :=
+  checkPath_ok sent stored hr hk hl hm
+
+/-- the next hop given to AddPath is not shown by ListPath (nor are ORIGINATOR_ID / CLUSTER_LIST) -/
+theorem next_hop_not_listed :
+    run current (.grpc (.prefix (.ip4 167772160) 8) [.nextHop (.ip4 3221225985)]) =
+      .listed (.prefix (.ip4 167772160) 8) [.origin 0, .asPath []] ∧
+    Spec.check (.grpc (.prefix (.ip4 167772160) 8) [.nextHop (.ip4 3221225985)])
+      (.listed (.prefix (.ip4 167772160) 8) [.origin 0, .asPath []]) = .fail "listed-path-lacks-next-hop" := by
+  refine ⟨?_, by decide⟩
+  simp [run, netFromApi, ApiNlri.strict, hostBitsClear, netFromApi0, current, localPath, convertAll, fromApi,
+    ApiAttr.strict, fromApi0, AStr.parse4, newWithBin, canonicalFlags, Attribute.valueLen, maxAttrValue,
+    beN, keepAttrs, Out.map, originIgp, emptyAsPath, modelledCode, listAttrs, toApi, Attribute.value,
+    Attribute.binary, asPathToSegs, nlriToApi]
+
+/-- ... and the listed form re-imports to the same stored value. -/
+theorem accepted_reimports_unchanged (x : ApiAttr) (a : Attribute) (hr : x.inRange = true)
     (h : fromApi current x = .ok a) (hm : modelledCode a.code = true) :
-    ∃ y, toApi current a = .ok y ∧ fromApi current y = .ok a :=
-  (Rbgp.Api.from_api_rt x a hr h hm).2
+    ∃ y, toApi current a = .ok y ∧ fromApi current y = .ok a := by
+  obtain ⟨hwf, _, hrt⟩ := Rbgp.Api.from_api_rt x a hr h hm
+  exact rtreal_of_rt a hwf hrt
 
 /-- conversion from API input never panics: every failure is an `Err(InvalidArgument)` -/
 theorem from_api_never_panics (x : ApiAttr) : fromApi current x ≠ .panic := fromApi_no_panic x
@@ -123,23 +167,33 @@ theorem net_from_api_never_panics (x : ApiNlri) : netFromApi current x ≠ .pani
 /-- non-vacuity: the accepting branch is inhabited for every message kind of the model -/
 example : fromApi current (.origin 2) = .ok ⟨1, 0x40, .val 2⟩ := by decide
 example : fromApi current (.unknown 0xE0 200 [1, 2]) = .ok ⟨200, 0xE0, .raw [1, 2]⟩ := by decide
-example : fromApi current (.unknown 0 26 [1, 0, 11, 0, 0, 0, 0, 0, 0, 0, 9]) =
-    .ok ⟨26, 0x80, .bin [1, 0, 11, 0, 0, 0, 0, 0, 0, 0, 9]⟩ := by
-  simp [fromApi, current, canonicalFlags, typedCode, aigpOk]
+example : fromApi current (.unknown 0 14 [0, 1, 1, 0, 0]) = .ok ⟨14, 0x80, .bin [0, 1, 1, 0, 0]⟩ := by decide
 example : fromApi current (.extCommunities [.twoOctetAs true 2 65001 100]) =
     .ok ⟨16, 0xC0, .bin [0, 2, 0xfd, 0xe9, 0, 0, 0, 100]⟩ := by decide
-/-- and the rejecting branch: what S27 was about is now refused -/
+/-- and the rejecting branch: what S27 and the third-wave review were about is refused -/
 example : fromApi current (.origin 3) = .err := by decide
 example : fromApi current (.unknown 0x40 2 [2]) = .err := by decide
 example : fromApi current (.unknown 0x40 257 [0]) = .err := by decide
+example : fromApi current (.unknown 0xE0 14 [0, 1, 1, 0, 0]) = .err := by decide   -- flags that would be dropped
 example : fromApi current (.asPath [(0, [65001])]) = .err := by decide
-example (ns : List Nat) (h : ns.length > 255) : fromApi current (.asPath [(2, ns)]) = .err := by
-  simp [fromApi, current, h]
+example : fromApi current (.asPath [(2, [])]) = .err := by decide
 example : fromApi current (.nextHop (.bad 1)) = .err := by decide
-example : fromApi current (.unknown 0 26 [1, 0, 11]) = .err := by
-  simp [fromApi, current, canonicalFlags, typedCode, aigpOk]
+example : fromApi current (.extCommunities [.trafficRemark 64]) = .err := by decide
+example : fromApi current (.extCommunities [.unknown 3 [0x80, 1, 0, 0, 0, 0, 0, 0]]) = .err := by decide
 example : netFromApi current (.labeled [] 24 (.ip4 167772160)) = .err := by decide
 example : netFromApi current (.labeled [100] 200 (.ip4 167772160)) = .err := by decide
+example : netFromApi current (.labeled [1048576] 24 (.ip4 167772160)) = .err := by decide
+example : netFromApi current (.prefix (.ip4 167772161) 8) = .err := by decide          -- 10.0.0.1/8
+
+/-- an attribute value no UPDATE can carry is refused (16380 communities = 65520 octets) -/
+theorem oversized_value_refused (l : List Nat) (h : l.length * 4 > 65508) :
+    fromApi current (.communities l) = .err := by
+  have hlen : (l.flatMap (beN 4)).length = l.length * 4 := flatMap_beN4_length l
+  simp only [fromApi, ApiAttr.strict, fromApi0, okOrErr_eq, newWithBin, canonicalFlags, current]
+  simp [Attribute.valueLen, maxAttrValue]
+  have : (List.map (fun a => (beN 4 a).length) l).sum = (l.flatMap (beN 4)).length := by
+    simp [List.length_flatMap]
+  omega
 
 /-! ## 3. Well-formed values cannot crash their consumers -/
 
@@ -154,48 +208,54 @@ theorem wf_safe_policy (a : Attribute) (h : WF a) :
     (a.code = 2 → (∃ n, asPathLength a = .ok n) ∧ (∃ r, asPathOrigin a = .ok r)) :=
   ⟨polUse_ok _ (pathAttrs_wf a h), fun hc => ⟨asPathLength_ok a h hc, asPathOrigin_ok a h hc⟩⟩
 
-/-- encoding: `Attribute::encode`, and a whole UPDATE on a four-octet-AS and on a two-octet-AS session
-    (AS_PATH down-conversion, AS4_PATH synthesis, AGGREGATOR down-conversion) -/
+/-- encoding: `Attribute::encode` succeeds; a whole UPDATE on a four-octet-AS and on a two-octet-AS session
+    (AS_PATH down-conversion, AS4_PATH synthesis, AGGREGATOR down-conversion) either is written or is
+    refused as too large for the session's message size — it never panics, and the attribute-length sum
+    is modelled, not assumed. -/
 theorem wf_safe_encode (a : Attribute) (h : WF a) :
-    (∃ b, encodeAttr a = .ok b) ∧ (useOf a).msg4 = .ok () ∧ (useOf a).msg2 = .ok () :=
+    (∃ b, encodeAttr a = .ok b) ∧ (useOf a).msg4 ≠ .panic ∧ (useOf a).msg2 ≠ .panic :=
   ⟨encodeAttr_ok a h,
-   runAll_ok encodeAttr _ (fun x hx => encodeAttr_ok x (pathAttrs_wf a h x hx)),
-   runAll_ok encode2Use _ (fun x hx => ⟨(), encode2Use_ok x (pathAttrs_wf a h x hx)⟩)⟩
+   msgUse_no_panic encodeAttr _ (fun x hx => encodeAttr_ok x (pathAttrs_wf a h x hx)),
+   msgUse_no_panic encode2 _ (fun x hx => encode2_ok x (pathAttrs_wf a h x hx))⟩
 
 /-- all consumers at once -/
 theorem wf_safe (a : Attribute) (h : WF a) : (useOf a).noPanic = true := Rbgp.Api.wf_safe a h
 
-/-- `Nlri::encode` -/
-theorem wf_safe_encode_nlri (n : Nlri) (h : WFN n) : ∃ b, encodeNlri n = .ok b := nlri_encode_ok n h
+/-- `Nlri::encode` writes the prefix (no panic, and not the empty "cannot be encoded" result) -/
+theorem wf_safe_encode_nlri (n : Nlri) (h : WFN n) : ∃ b, encodeNlri n = .ok b ∧ b ≠ [] := nlri_encode_ok n h
 
 /-- so: nothing `attr_from_api` accepts can later crash best-path selection, policy evaluation or encoding -/
 theorem accepted_is_safe (x : ApiAttr) (a : Attribute) (hr : x.inRange = true)
     (h : fromApi current x = .ok a) : (useOf a).noPanic = true :=
-  Rbgp.Api.wf_safe a (Rbgp.Api.from_api_wf x a hr h).1
+  Rbgp.Api.wf_safe a (from_api_wf x a hr h).1
 
 /-! ## 4. `WF` is what the wire decoder guarantees -/
 
 theorem decode_wf (code flags : Nat) (bs : Bytes) (a : Attribute) (hc : code < 256) (hf : flags < 256)
-    (hb : ∀ b ∈ bs, b < 256) (h : decodeAttr code flags bs = .stored a) :
+    (hb : ∀ b ∈ bs, b < 256) (hlen : bs.length ≤ 65508) (h : decodeAttr code flags bs = .stored a) :
     WF a ∧ a.code = code ∧ a.flags = flags ∧ (code ≠ 3 ∧ code ≠ 14 ∧ code ≠ 15 ∧ code ≠ 17 ∧ code ≠ 18) :=
-  Rbgp.Api.decode_wf code flags bs a hc hf hb h
+  Rbgp.Api.decode_wf code flags bs a hc hf hb hlen h
 
-/-- the NLRI decoders never panic (vpn.rs since the C03 repair dd9ba2a) -/
+/-- every prefix the IPv4 / IPv6 / labeled / VPN decoders produce satisfies `WFN`, whatever the label
+    stack (no wrap-around hypothesis any more: labeled.rs / vpn.rs count label bits in `usize`) -/
+theorem decode_wf_nlri (f : Fam) (bs : Bytes) (n : Nlri) (rest : Bytes) (hb : ∀ b ∈ bs, b < 256)
+    (h : decodeOne f bs = .ok (n, rest)) : WFN n :=
+  (decodeOne_wf f bs n rest hb h).1
+
+/-- the NLRI decoders never panic -/
 theorem nlri_decoder_never_panics (f : Fam) (fuel : Nat) (bs : Bytes) : decodeList f fuel bs ≠ .panic :=
   decodeList_no_panic f fuel bs
 
-theorem decode_wf_nlri (f : Fam) (bs : Bytes) (n : Nlri) (rest : Bytes) (hb : ∀ b ∈ bs, b < 256)
-    (h : decodeOne f bs = .ok (n, rest)) (hw : noWrap n) : WFN n :=
-  (decodeOne_wf f bs n rest hb h hw).1
-
 example : decodeAttr 2 0x40 [2, 1, 0, 0, 0xfd, 0xe9] = .stored ⟨2, 0x40, .bin [2, 1, 0, 0, 0xfd, 0xe9]⟩ := by
+  simp [decodeAttr, canonicalFlags, classBits, decodeData, segsOk]
+example : decodeAttr 2 0x40 [2, 0] = .rejected := by
   simp [decodeAttr, canonicalFlags, classBits, decodeData, segsOk]
 example : decodeAttr 1 0x40 [3] = .rejected := by decide
 example : decodeAttr 26 0x80 [0] = .rejected := by
   simp [decodeAttr, canonicalFlags, classBits, decodeData, aigpOk]
 example : decodeOne .v4 [24, 10, 0, 1] = .ok (.v4 167772416 24, []) := by decide
 
-/-! ## 5. S27 on the code before the repair (`Api.original`) -/
+/-! ## 5. The findings on the code before the repairs (`Api.original`) -/
 
 /-- a raw message for AS_PATH was accepted although the decoder would refuse the value ... -/
 theorem s27_raw_as_path_accepted :
@@ -241,5 +301,25 @@ theorem s27_labeled_prefix_crashes :
     netFromApi original (.labeled [100] 200 (.ip4 167772160)) = .ok (.lv4 [100] 167772160 200) ∧
     encodeNlri (.lv4 [100] 167772160 200) = .panic := by
   refine ⟨by decide, by decide⟩
+
+/-- third-wave review B: the conversion altered input silently — a label above 20 bits was stored (and then
+    listed) as its low 20 bits, a DSCP above 63 as its low 6 bits, host bits were kept -/
+theorem silent_alteration_before_repair :
+    netFromApi original (.labeled [1048576] 24 (.ip4 167772160)) = .ok (.lv4 [0] 167772160 24) ∧
+    nlriToApi (.lv4 [0] 167772160 24) ≠ .labeled [1048576] 24 (.ip4 167772160) ∧
+    fromApi original (.extCommunities [.trafficRemark 4294967295]) =
+      .ok ⟨16, 0xC0, .bin [0x80, 9, 0, 0, 0, 0, 0, 63]⟩ ∧
+    netFromApi original (.prefix (.ip4 167772161) 8) = .ok (.v4 167772161 8) ∧
+    ¬ WFN (.v4 167772161 8) := by
+  refine ⟨by decide, by decide, by decide, by decide, by decide⟩
+
+/-- third-wave review A: an attribute longer than any UPDATE was accepted; the encoder model shows what the
+    u16 length sum then met (the real encoder panicked in debug / wrote a wrong length in release before
+    the C04 repair made it return `Err`) -/
+theorem oversized_value_accepted_before_repair (l : List Nat) :
+    ∃ a, fromApi original (.communities l) = .ok a ∧ a.valueLen = l.length * 4 := by
+  refine ⟨⟨8, 0xC0, .bin (l.flatMap (beN 4))⟩, ?_, ?_⟩
+  · simp [fromApi, original, fromApi0, newWithBin, canonicalFlags]
+  · simp only [Attribute.valueLen]; exact flatMap_beN4_length l
 
 end Rbgp.Api.Props
